@@ -28,13 +28,13 @@ func C10(r *core.Report) {
 	c10MetadataKeys(r)
 	c10GsfaVersionGate(r)
 	c10AssertGates(r)
-	r.Floor("C10.R6", 7)
-	r.Floor("C10.R5", 3)
+	r.Floor("C10.R6", 4)
+	r.Floor("C10.R5", 2)
 	c10MetadataWrittenAsGiven(r)
-	r.Floor("C10.R7", 4)
+	r.Floor("C10.R7", 2)
 	r.Floor("C10.R1", 5)
 	r.Floor("C10.R2", 5)
-	r.Floor("C10.R4", 4)
+	r.Floor("C10.R4", 2)
 }
 
 func c10KindAssertion(r *core.Report) {
